@@ -16,11 +16,12 @@ import Driver.OpsDateIP
 import Driver.OpsLB
 import Driver.OpsPipe
 import Driver.OpsCookie
+import Driver.OpsHeaderSet
 
 open Fh Fh.Driver
 
 def handlers : List (String → List Bytes → Option String) :=
-  [opsByteClass, opsIntCodec, opsPath, opsFs, opsArgs, opsHeader, opsConn, opsDateIP, opsFsPath, opsLB, opsPipe, opsCookie]
+  [opsByteClass, opsIntCodec, opsPath, opsFs, opsArgs, opsHeader, opsConn, opsDateIP, opsFsPath, opsLB, opsPipe, opsCookie, opsHeaderSet]
 
 def dispatch (line : String) : String :=
   match (line.splitOn " ").filter (· ≠ "") with
